@@ -129,14 +129,14 @@ PROPS = {
                   ("SH", 6, has("decision_nnf::")), ("RN", 5, has("RN4")),
                   ("WP", 4, has("update_hash_and_sat_set")), ("PR", 1, has("SATSolver")),
                   ("TD", 4, None), ("VO", 1, vo_sel("decision_nnf", only_label_order=True)),
-                  ("EC", 4, None), ("LP", 6, None)],
+                  ("EC", 4, None), ("LP", 6, None), ("MK", 0, None), ("VO", 4, has("level-arg"))],
         "explanation": "Conditioning of a possibly complemented d-DNNF pointer is sign-coherent (CP on cond_helper: return "
                        "contract, node-constructor parity, comparison parity); decide/pop balance on every path of topdown_h "
                        "(TS-BAL: one pop after SAT/Unknown, none after UNSAT, none before the first decide); UNSAT and an "
                        "initially unsatisfiable CNF map to the false constant (DP); one residual-hash key for cache lookup and "
                        "insert, taken before the level's decisions (GL4); no public function leaves scratch set (SP1). Not "
                        "decided: soundness of component caching by residual hash, that models are exactly the CNF's, "
-                       "path-wise decomposability. Added: each branch conjoins all of difference_iter except the decided variable (TD); the solver constructor treats an empty clause as a conflict, a unit clause as one queued literal and a longer clause as two watches (EC); no label-order comparison in the top-down builder (VO label-order). Added: LP — the bit-field packing of Literal (known-bits/provenance analysis of the generated accessors): the label and polarity fields do not overlap, each setter writes exactly what its getter reads, label(new(l,p)) = l and polarity(new(l,p)) = p, and negated/implies_true/implies_false equal their definitions by truth table.",
+                       "path-wise decomposability. Added: each branch conjoins all of difference_iter except the decided variable (TD); the solver constructor treats an empty clause as a conflict, a unit clause as one queued literal and a longer clause as two watches (EC); no label-order comparison in the top-down builder (VO label-order). Added: LP — the bit-field packing of Literal (known-bits/provenance analysis of the generated accessors): the label and polarity fields do not overlap, each setter writes exactly what its getter reads, label(new(l,p)) = l and polarity(new(l,p)) = p, and negated/implies_true/implies_false equal their definitions by truth table. Added: MK — any memo over signed pointers (a composite key with a pointer component included) applies the sign symmetrically on lookup and insert; VO level-arg — every `level` argument of the top-down recursion is a level of the variable order (a constant start, level + 1), never an index found in label space.",
     },
     "C07": {
         "level": "other",
